@@ -57,6 +57,8 @@ VacuumFails(ev) ==
   IF ev.raised THEN {"real_space_multislice_raises"}
   ELSE (IF ev.intensity_ppb <= Tol THEN {} ELSE {"vacuum_propagation_changes_the_intensity"})
   \cup (IF ev.lazy_ppb <= Tol THEN {} ELSE {"lazy_and_eager_differ"})
+  \* the same (prebuilt) potential object used for a second run gives the first run's result again
+  \cup (IF ev.repeat_ppb <= Tol THEN {} ELSE {"second_run_through_the_same_potential_differs"})
 Fails(ev) == CASE ev.k = "stencil" -> StencilFails(ev) [] ev.k = "eigen" -> EigenFails(ev) [] ev.k = "vacuum" -> VacuumFails(ev)
                [] OTHER -> {"unknown_event"}
 
@@ -67,8 +69,9 @@ vars == <<c, done>>
 Accuracies == {2, 4, 6, 8, 10, 12, 14, 16, 18}       \* 20 and above are computed with sympy, which this sandbox does not have
 Init == /\ \/ \E a \in {2, 4, 6}, g \in 1..4, s \in 1..3 : c = [k |-> "stencil", acc |-> a, grid |-> g, spacing |-> s]
            \/ \E a \in Accuracies, g \in 1..3, s \in 1..3, p \in 0..3, q \in {0, 2, 5} : c = [k |-> "eigen", acc |-> a, grid |-> g, spacing |-> s, p |-> p, q |-> q]
-           \/ \E a \in {2, 6, 8}, o \in 1..3, sc \in {"propagator", "full"}, g \in 1..2, s \in 1..2, lz \in BOOLEAN :
-                 c = [k |-> "vacuum", acc |-> a, order |-> o, scope |-> sc, grid |-> g, spacing |-> s, lazy |-> lz]
+           \* pot: vacuum (intensity is judged) or a prebuilt non-zero potential array (lazy == eager and a second run on the same object are judged)
+           \/ \E a \in {2, 6, 8}, o \in 1..3, sc \in {"propagator", "full"}, g \in 1..2, s \in 1..2, lz \in BOOLEAN, pt \in {"vacuum", "array"} :
+                 c = [k |-> "vacuum", acc |-> a, order |-> o, scope |-> sc, grid |-> g, spacing |-> s, lazy |-> lz, pot |-> pt]
         /\ done = FALSE
 Next == ~done /\ done' = TRUE /\ UNCHANGED c
 Spec == Init /\ [][Next]_vars
